@@ -401,6 +401,12 @@ impl ApplicationHeader {
 
         let direction = &block2[0..1];
         let message_type = block2[1..4].to_string();
+        if !message_type.bytes().all(|b| b.is_ascii_digit()) {
+            return Err(ParseError::InvalidBlockStructure {
+                block: "2".to_string(),
+                message: format!("Message type must be 3 digits, found '{}'", message_type),
+            });
+        }
 
         match direction {
             "I" => {
@@ -411,6 +417,18 @@ impl ApplicationHeader {
                         block: "2".to_string(),
                         message: format!(
                             "Input Block 2 too short: expected at least 17 characters, got {}",
+                            block2.len()
+                        ),
+                    });
+                }
+
+                // priority alone (17), + delivery monitoring (18), + obsolescence period (21):
+                // any other length would leave characters that belong to no component
+                if ![17, 18, 21].contains(&block2.len()) {
+                    return Err(ParseError::InvalidBlockStructure {
+                        block: "2".to_string(),
+                        message: format!(
+                            "Input Block 2 must be 17, 18 or 21 characters long, got {}",
                             block2.len()
                         ),
                     });
@@ -500,6 +518,15 @@ impl ApplicationHeader {
                         block: "2".to_string(),
                         message: format!(
                             "Output Block 2 too short: expected at least 46 characters, got {}",
+                            block2.len()
+                        ),
+                    });
+                }
+                if block2.len() > 47 {
+                    return Err(ParseError::InvalidBlockStructure {
+                        block: "2".to_string(),
+                        message: format!(
+                            "Output Block 2 too long: expected at most 47 characters, got {}",
                             block2.len()
                         ),
                     });
